@@ -446,3 +446,156 @@ pub fn gen_ardr(rng: &mut Rng, w: &mut CaseWriter, big: bool) {
         ],
     );
 }
+
+// ---------------------------------------------------------------------------------------------
+// kind `awr`: <ops> <mode> <seed> <workers> <pool> <level>
+//   ops = w<len>:<a>:<m> write_all(pattern) | p<len>:<a>:<m> one write(pattern) | f flush; then
+//   finish() / shutdown().  obs = sync=<blocks>|<results> async=<blocks>|<results>: the uncompressed
+//   data of every block of the file in order (canonical form), `eof` for the final marker, and the
+//   amounts returned by the single writes -- against NV.Async.Writer.a_blocks / a_results (theorem
+//   c16_async_writer_equals_sync_blocks: the sync writer model cuts the same blocks).
+//   verdict: the two files are byte-identical (same level, same DEFLATE implementation).
+
+#[derive(Clone, Debug)]
+pub enum AOp {
+    WriteAll(usize, u64, u64),
+    Write(usize, u64, u64),
+    Flush,
+}
+
+fn fmt_aops(ops: &[AOp]) -> String {
+    if ops.is_empty() {
+        return "_".into();
+    }
+    ops.iter()
+        .map(|o| match o {
+            AOp::WriteAll(n, a, m) => format!("w{n}:{a}:{m}"),
+            AOp::Write(n, a, m) => format!("p{n}:{a}:{m}"),
+            AOp::Flush => "f".into(),
+        })
+        .collect::<Vec<_>>()
+        .join(",")
+}
+
+fn parse_aops(s: &str) -> Vec<AOp> {
+    if s == "_" {
+        return vec![];
+    }
+    s.split(',')
+        .map(|t| {
+            let (k, rest) = t.split_at(1);
+            if k == "f" {
+                return AOp::Flush;
+            }
+            let v: Vec<u64> = rest.split(':').map(|x| x.parse().unwrap()).collect();
+            match k {
+                "w" => AOp::WriteAll(v[0] as usize, v[1], v[2]),
+                "p" => AOp::Write(v[0] as usize, v[1], v[2]),
+                _ => panic!("aop {t}"),
+            }
+        })
+        .collect()
+}
+
+/// blocks of a BGZF file as canonical data strings; the final EOF marker is shown as `eof`
+fn show_blocks(file: &[u8]) -> String {
+    let Some(fr) = real_frames(file) else { return "malformed".into() };
+    let mut v: Vec<String> = fr.iter().map(|(_, d)| canon_bytes(d)).collect();
+    if file.ends_with(&crate::EOF_BLOCK) {
+        v.pop();
+        v.push("eof".into());
+    }
+    v.join(",")
+}
+
+fn show_rets(r: &[usize]) -> String {
+    if r.is_empty() { "_".into() } else { r.iter().map(|x| x.to_string()).collect::<Vec<_>>().join(",") }
+}
+
+pub fn run_awr(c: &Case) -> Obs {
+    use std::io::Write;
+    use tokio::io::AsyncWriteExt;
+    let ops = parse_aops(&c.args[0]);
+    let (mode, sseed, workers, pool, level) = (c.u(1) as u8, c.u(2), c.u(3) as usize, c.u(4) as usize, c.u(5) as u8);
+    let lvl = bgzf::io::writer::CompressionLevel::new(level).unwrap();
+    let mut sret = Vec::new();
+    let sync_out = {
+        let mut w = bgzf::io::writer::Builder::default().set_compression_level(lvl).build_from_writer(Vec::new());
+        for op in &ops {
+            match op {
+                AOp::Write(n, a, m) => sret.push(w.write(&pattern(*n, *a, *m)).unwrap()),
+                AOp::WriteAll(n, a, m) => w.write_all(&pattern(*n, *a, *m)).unwrap(),
+                AOp::Flush => w.flush().unwrap(),
+            }
+        }
+        w.finish().unwrap()
+    };
+    let sched = Sched::new(mode, sseed);
+    let tripped = sched.tripped.clone();
+    let (sink, log) = crate::c16_adversary::AdvWriter::new(sched);
+    let ops2 = ops.clone();
+    let ares = block_on_pool(pool, async move {
+        let mut w = bgzf::r#async::io::writer::Builder::default()
+            .set_compression_level(lvl)
+            .set_worker_count(NonZero::new(workers.max(1)).unwrap())
+            .build_from_writer(sink);
+        let mut rets = Vec::new();
+        for op in &ops2 {
+            match op {
+                AOp::Write(n, a, m) => rets.push(w.write(&pattern(*n, *a, *m)).await?),
+                AOp::WriteAll(n, a, m) => w.write_all(&pattern(*n, *a, *m)).await?,
+                AOp::Flush => w.flush().await?,
+            }
+        }
+        w.shutdown().await?;
+        Ok::<_, std::io::Error>(rets)
+    });
+    if tripped.load(Ordering::SeqCst) {
+        return Obs::fail("-", "async-bgzf-hang", format!("writer poll limit reached ops={}", c.args[0]));
+    }
+    let aret = match ares {
+        Ok(r) => r,
+        Err(x) => return Obs::fail("-", "async-bgzf-model-writer-error", format!("async writer error {x} ops={}", c.args[0])),
+    };
+    let abytes = log.lock().unwrap().bytes.clone();
+    let obs = format!(
+        "sync={}|{} async={}|{}",
+        show_blocks(&sync_out),
+        show_rets(&sret),
+        show_blocks(&abytes),
+        show_rets(&aret)
+    );
+    let nontrivial = ops.len() >= 2 && ops.iter().any(|o| matches!(o, AOp::Write(n, ..) | AOp::WriteAll(n, ..) if *n > 0));
+    if sync_out != abytes {
+        return Obs::fail(obs, "async-bgzf-model-writer-bytes-differ", format!("level={level} ops={} sync_len={} async_len={}", c.args[0], sync_out.len(), abytes.len()));
+    }
+    Obs::ok(obs, nontrivial)
+}
+
+pub fn gen_awr(rng: &mut Rng, w: &mut CaseWriter, big: bool) {
+    let n = rng.range(0, 8);
+    let ops: Vec<AOp> = (0..n)
+        .map(|_| {
+            let (a, m) = (rng.below(251), rng.below(251));
+            match rng.below(7) {
+                0 | 1 => AOp::Flush,
+                2 => AOp::Write(*rng.pick(&[0usize, 1, 10, 1000]), a, m),
+                3 if big => AOp::WriteAll(*rng.pick(&[65494usize, 65495, 65496, 130990, 130991, 150000]), a, m),
+                3 => AOp::WriteAll(rng.range(0, 5000) as usize, a, m),
+                4 if big => AOp::Write(*rng.pick(&[65494usize, 65495, 65496, 70000]), a, m),
+                _ => AOp::WriteAll(rng.range(0, 3000) as usize, a, m),
+            }
+        })
+        .collect();
+    w.push(
+        "awr",
+        vec![
+            fmt_aops(&ops),
+            rng.below(6).to_string(),
+            rng.next().to_string(),
+            rng.range(1, 8).to_string(),
+            rng.range(1, 8).to_string(),
+            rng.pick(&[0u8, 1, 6, 6, 9]).to_string(),
+        ],
+    );
+}
